@@ -155,7 +155,8 @@ def install(I):
     module('random', randrange=Builtin('randrange', randrange), seed=Builtin('seed', lambda I_, a, k: None),
            randint=Builtin('randint', lambda I_, a, k: randrange(I_, [a[0], I_.binop('Add', a[1], 1)], k)))
 
-    module('html', escape=Builtin('html.escape', lambda I_, a, k: html_escape(I_, a[0])))
+    module('html', escape=Builtin('html.escape', lambda I_, a, k: html_escape(I_, a[0])),
+           unescape=Builtin('html.unescape', lambda I_, a, k: html_unescape(I_, a[0])))
     module('json', load=Builtin('json.load', lambda I_, a, k: I_.ghost['json_load'](I_, a, k)))
     fl = module('flask')
     fl.ns['render_template'] = Builtin('render_template', lambda I_, a, k: render_template(I_, a, k))
@@ -175,6 +176,22 @@ def html_escape(I, s):
     if isinstance(s, SymVal) and s.k == 'str':
         return SymVal(_esc_fn(s.t), 'str')
     I.raise_builtin('AttributeError', "'%s' object has no attribute 'replace'" % I.typename(s))
+
+
+_unesc_fn = z3.Function('html_unescape', z3.StringSort(), z3.StringSort())
+
+
+def html_unescape(I, s):
+    """assumed: html.unescape(html.escape(x)) == x"""
+    if isinstance(s, str):
+        import html
+        return html.unescape(s)
+    t = s.t
+    if z3.is_app(t) and t.decl().name() == 'html_escape':
+        return SymVal(t.arg(0), 'str')
+    x = z3.String('x!unesc')
+    I.assume(z3.ForAll([x], _unesc_fn(_esc_fn(x)) == x))
+    return SymVal(_unesc_fn(t), 'str')
 
 
 def render_template(I, a, k):
